@@ -156,6 +156,23 @@ func init() {
 		if err != nil {
 			return nil, err
 		}
+		var want int
+		if n, _ := fmt.Sscanf(op.Amt2, "size:%d", &want); n == 1 {
+			for i := 0; i < 4 && len(bz) != want; i++ {
+				d := want - len(bz) + len(msg.Prices[0].Desc)
+				if d < 0 {
+					break
+				}
+				pad := make([]byte, d)
+				for j := range pad {
+					pad[j] = 'x'
+				}
+				msg.Prices[0].Desc = string(pad)
+				if bz, err = OracleTx(r.Cfg.ChainID, key, other, mode, msg); err != nil {
+					return nil, err
+				}
+			}
+		}
 		bt.Bytes = bz
 		bt.Sender = sdk.AccAddress(key.PubKey().Address())
 		bt.Oracle = &OracleInfo{Validator: validator, Creator: msg.Creator, FeederID: fid, BasedBlock: bb, Nonce: nonce, Price: price, Decimal: dec,
